@@ -281,7 +281,7 @@ func Twin(self string, trace string, out io.Writer) int {
 				}
 			}
 			cls := "none"
-			if pg != "0" && (fmt.Sprint(x.Op["k"]) == "delegate" || fmt.Sprint(x.Op["k"]) == "undelegate") {
+			if pg != "0" && (fmt.Sprint(x.Op["k"]) == "delegate" || fmt.Sprint(x.Op["k"]) == "undelegate" || fmt.Sprint(x.Op["k"]) == "redelegate") {
 				// the known class: the residue is consumed by the next staking hook
 				cls = "stale-global"
 			}
